@@ -5,6 +5,7 @@
 package main
 
 import (
+	"bytes"
 	"encoding/hex"
 	"fmt"
 	"math/rand"
@@ -30,16 +31,45 @@ import (
 
 // ---------- encoding helpers ----------
 
+// A transaction token is lower-case hex, "-"/"." for the empty tx, or "hh*N" = byte hh repeated
+// N times (long transactions); canonical output form: runs of >= 8 equal bytes are written hh*N.
+func encTx(b []byte) string {
+	if len(b) == 0 {
+		return "."
+	}
+	if len(b) >= 8 {
+		same := true
+		for _, x := range b {
+			if x != b[0] {
+				same = false
+				break
+			}
+		}
+		if same {
+			return fmt.Sprintf("%02x*%d", b[0], len(b))
+		}
+	}
+	return hex.EncodeToString(b)
+}
+
 func hx(b []byte) string {
 	if len(b) == 0 {
 		return "-"
 	}
-	return fmt.Sprintf("%x", b)
+	return encTx(b)
 }
 
 func unhx(s string) []byte {
 	if s == "-" || s == "" || s == "." {
 		return []byte{}
+	}
+	if i := strings.IndexByte(s, '*'); i == 2 {
+		v, err := hex.DecodeString(s[:2])
+		n, err2 := strconv.Atoi(s[3:])
+		if err != nil || err2 != nil {
+			panic("bad tx token " + s)
+		}
+		return bytes.Repeat(v, n)
 	}
 	b, err := hex.DecodeString(s)
 	if err != nil {
@@ -54,11 +84,7 @@ func hxList(l []types.Tx) string {
 	}
 	s := make([]string, len(l))
 	for i, b := range l {
-		if len(b) == 0 {
-			s[i] = "."
-		} else {
-			s[i] = fmt.Sprintf("%x", []byte(b))
-		}
+		s[i] = encTx(b)
 	}
 	return strings.Join(s, ",")
 }
@@ -151,7 +177,25 @@ type pool struct {
 	barSpin   int32
 }
 
-func (p *pool) postHook(tx types.Tx, res *abci.ResponseCheckTx) error {
+// gatedConn (v1): v1's CheckTx calls the application (CheckTxSync) after its read-locked first
+// phase and before addNewTransaction. During a ccheck the gate holds every submitter here until
+// all expected ones have passed the first phase, so their application calls and insertions overlap
+// the other submitters' first phases as tightly as the code allows.
+type gatedConn struct {
+	proxy.AppConnMempool
+	p *pool
+}
+
+func (g *gatedConn) CheckTxSync(req abci.RequestCheckTx) (*abci.ResponseCheckTx, error) {
+	if req.Type == abci.CheckTxType_New {
+		g.p.barrier()
+	}
+	return g.AppConnMempool.CheckTxSync(req)
+}
+
+// barrier: two phases — wait (bounded) until barWant submitters have arrived, then spin until all
+// of them are running again.
+func (p *pool) barrier() {
 	p.barMu.Lock()
 	ch := p.barCh
 	if ch != nil {
@@ -161,23 +205,28 @@ func (p *pool) postHook(tx types.Tx, res *abci.ResponseCheckTx) error {
 			p.barCh = nil
 		}
 	}
-	inner := p.postInner
 	p.barMu.Unlock()
-	if ch != nil {
-		select {
-		case <-ch:
-		case <-time.After(100 * time.Millisecond):
-		}
-		// second phase: spin until all woken submitters are actually running, so that they enter
-		// the admission step within nanoseconds of each other
-		want := int32(p.barWant)
-		atomic.AddInt32(&p.barSpin, 1)
-		for i := 0; atomic.LoadInt32(&p.barSpin) < want && i < 3000000; i++ {
-			if i&0xfffff == 0xfffff {
-				runtime.Gosched() // more submitters than free CPUs: let the others get there
-			}
+	if ch == nil {
+		return
+	}
+	select {
+	case <-ch:
+	case <-time.After(100 * time.Millisecond):
+	}
+	want := int32(p.barWant)
+	atomic.AddInt32(&p.barSpin, 1)
+	for i := 0; atomic.LoadInt32(&p.barSpin) < want && i < 400000; i++ {
+		if i&0x3ffff == 0x3ffff {
+			runtime.Gosched() // more submitters than free CPUs: let the others get there
 		}
 	}
+}
+
+func (p *pool) postHook(tx types.Tx, res *abci.ResponseCheckTx) error {
+	p.barrier()
+	p.barMu.Lock()
+	inner := p.postInner
+	p.barMu.Unlock()
 	if inner != nil {
 		return inner(tx, res)
 	}
@@ -211,8 +260,11 @@ func newPool(m map[string]string) (*pool, bool) {
 	cfg.TTLDuration = time.Duration(ttld) // 1ns: every entry is older than the TTL at the next Update
 	app := &scriptApp{rv: map[string]verdict{}}
 	cli := abcicli.NewLocalClient(nil, app)
-	conn := proxy.NewAppConnMempool(cli)
 	p := &pool{ver: int(ver), cfg: cfg, app: app}
+	var conn proxy.AppConnMempool = proxy.NewAppConnMempool(cli)
+	if ver == 1 {
+		conn = &gatedConn{AppConnMempool: conn, p: p}
+	}
 	if ver == 0 {
 		cfg.Version = config.MempoolV0
 		p.mp = mempoolv0.NewCListMempool(cfg, conn, h, mempoolv0.WithPostCheck(p.postHook))
@@ -308,6 +360,17 @@ func validHex(s string) bool {
 	if s == "-" || s == "." {
 		return true
 	}
+	if i := strings.IndexByte(s, '*'); i >= 0 {
+		if i != 2 || len(s) < 4 || len(s) > 10 || s[3] == '0' {
+			return false
+		}
+		for _, c := range s[3:] {
+			if c < '0' || c > '9' {
+				return false
+			}
+		}
+		s = s[:2]
+	}
 	if len(s) == 0 || len(s)%2 != 0 {
 		return false
 	}
@@ -370,12 +433,19 @@ func (p *pool) ccheck(m map[string]string) string {
 	p.app.first = v
 	p.app.mu.Unlock()
 	before := p.mp.Size()
-	if p.ver == 0 {
-		p.barMu.Lock()
-		p.barWant, p.barGot, p.barCh = len(txs), 0, make(chan struct{})
-		atomic.StoreInt32(&p.barSpin, 0)
-		p.barMu.Unlock()
+	// submitters expected at the barrier: with a cache, repeats of a tx are turned away before it
+	want := len(txs)
+	if p.cfg.CacheSize > 0 {
+		d := map[string]bool{}
+		for _, t := range txs {
+			d[string(t)] = true
+		}
+		want = len(d)
 	}
+	p.barMu.Lock()
+	p.barWant, p.barGot, p.barCh = want, 0, make(chan struct{})
+	atomic.StoreInt32(&p.barSpin, 0)
+	p.barMu.Unlock()
 	start := make(chan struct{})
 	var wg sync.WaitGroup
 	var panicked int32
@@ -531,7 +601,7 @@ func (p *pool) waitRecheckV1(pending int) {
 }
 
 // execCase: cases with concurrent submissions are schedule dependent on broken code only; they are
-// run up to 8 times on fresh pools and the first run on which the oracle objects is reported (on
+// run up to 4 times on fresh pools and the first run on which the oracle objects is reported (on
 // correct code all runs give the same canonical lines).
 func execCase(c core.Case) []string {
 	conc := false
@@ -544,7 +614,7 @@ func execCase(c core.Case) []string {
 		return execOnce(c)
 	}
 	var out []string
-	for i := 0; i < 8; i++ {
+	for i := 0; i < 4; i++ {
 		out = execOnce(c)
 		if len(oracle(c, out)) > 0 {
 			break
@@ -806,17 +876,17 @@ func parseObs(line string) obsv {
 }
 
 func tokLen(t string) int64 {
-	if t == "." || t == "-" {
+	if !validHex(t) {
 		return 0
 	}
-	return int64(len(t) / 2)
+	return int64(len(unhx(t)))
 }
 
 func normTok(t string) string {
-	if t == "-" {
-		return "."
+	if !validHex(t) {
+		return t
 	}
-	return t
+	return encTx(unhx(t))
 }
 
 func protoSize(n int64) int64 {
@@ -1382,7 +1452,7 @@ func genConcurrent(r *rand.Rand, emit func(core.Case), n, ver int) {
 			for i := 0; i < pre; i++ {
 				ops = append(ops, fmt.Sprintf("check tx=d%x%02x peer=0 code=0 gas=1 prio=%d sender=-", round, i, r.Intn(4)))
 			}
-			k := 2 + r.Intn(14)
+			k := 2 + r.Intn(9)
 			var txs []string
 			for i := 0; i < k; i++ {
 				txs = append(txs, fmt.Sprintf("e%x%02x", round, i))
@@ -1390,6 +1460,67 @@ func genConcurrent(r *rand.Rand, emit func(core.Case), n, ver int) {
 			ops = append(ops, fmt.Sprintf("ccheck txs=%s code=0 gas=1 prio=%d sender=-", strings.Join(txs, ","), r.Intn(4)), "flush")
 		}
 		emit(core.Case{Kind: fmt.Sprintf("concurrent-v%d", ver), Ops: ops})
+	}
+}
+
+// genConcurrentSame: the SAME transaction submitted by several goroutines at once (with some
+// distinct ones in between), cache disabled / tiny / large: exactly one copy may enter.
+func genConcurrentSame(r *rand.Rand, emit func(core.Case), n, ver int) {
+	for c := 0; c < n; c++ {
+		size := 2 + r.Intn(6)
+		cache := []int{0, 0, 1, 2, 50}[r.Intn(5)]
+		ops := []string{fmt.Sprintf("cfg ver=%d size=%d maxbytes=1000 maxtx=1000 cache=%d keep=0 recheck=%d ttl=0 ttld=0 h=1", ver, size, cache, r.Intn(2))}
+		for round := 0; round < 3; round++ {
+			for i := 0; i < r.Intn(size); i++ {
+				ops = append(ops, fmt.Sprintf("check tx=d%x%02x peer=0 code=0 gas=1 prio=%d sender=-", round, i, r.Intn(4)))
+			}
+			distinct := 1 + r.Intn(3)
+			k := 2 + r.Intn(10)
+			var txs []string
+			for i := 0; i < k; i++ {
+				txs = append(txs, fmt.Sprintf("e%x%02x", round, r.Intn(distinct)))
+			}
+			ops = append(ops, fmt.Sprintf("ccheck txs=%s code=0 gas=1 prio=%d sender=-", strings.Join(txs, ","), r.Intn(4)))
+			ops = append(ops, "flush")
+		}
+		emit(core.Case{Kind: fmt.Sprintf("concurrent-same-v%d", ver), Ops: ops})
+	}
+}
+
+// genVarint: transaction lengths on both sides of the varint boundaries of the proto length
+// prefix (127/128, 255/256, 16383/16384, ...), reaped with maxBytes within 2 bytes of every
+// cumulative encoded size; pre-check bounds at the encoded size of a tx and one below.
+func genVarint(r *rand.Rand, emit func(core.Case), n, ver int) {
+	lens := []int{126, 127, 128, 129, 200, 254, 255, 256, 257, 1000, 16382, 16383, 16384, 16385, 20000, 65535, 65536, 70000}
+	for c := 0; c < n; c++ {
+		k := 1 + r.Intn(4)
+		ops := []string{fmt.Sprintf("cfg ver=%d size=%d maxbytes=10000000 maxtx=100000 cache=%d keep=0 recheck=0 ttl=0 ttld=0 h=1", ver, k+1, r.Intn(6))}
+		var cum []int64
+		var tot int64
+		for i := 0; i < k; i++ {
+			l := lens[r.Intn(len(lens))]
+			if r.Intn(4) == 0 {
+				l = 1 + r.Intn(70000)
+			}
+			if c%40 == 7 && i == 0 {
+				l = 2097151 + r.Intn(3) // 3-/4-byte prefix boundary
+				ops[0] = strings.Replace(ops[0], "maxtx=100000", "maxtx=3000000", 1)
+			}
+			ops = append(ops, fmt.Sprintf("check tx=%02x*%d peer=0 code=0 gas=1 prio=0 sender=-", 0x10+i, l))
+			tot += protoSize(int64(l))
+			cum = append(cum, tot)
+		}
+		for _, cb := range cum {
+			for d := int64(-2); d <= 2; d++ {
+				ops = append(ops, fmt.Sprintf("reap bytes=%d gas=-1", cb+d))
+			}
+		}
+		l := lens[r.Intn(len(lens))]
+		for d := int64(-1); d <= 1; d++ {
+			ops = append(ops, "flush", fmt.Sprintf("update h=2 txs=- codes=- rv=- pre=%d post=-", protoSize(int64(l))+d),
+				fmt.Sprintf("check tx=77*%d peer=1 code=0 gas=1 prio=0 sender=-", l))
+		}
+		emit(core.Case{Kind: fmt.Sprintf("varint-v%d", ver), Ops: ops})
 	}
 }
 
@@ -1443,6 +1574,10 @@ func main() {
 			genHostile(r, emit, n/2)
 			genConcurrent(r, emit, n/8, 0)
 			genConcurrent(r, emit, n/8, 1)
+			genConcurrentSame(r, emit, n/8, 0)
+			genConcurrentSame(r, emit, n/8, 1)
+			genVarint(r, emit, n/10, 0)
+			genVarint(r, emit, n/10, 1)
 			if tier == "thorough" {
 				for i := 0; i < 200; i++ {
 					size := 2 + r.Intn(6)
